@@ -281,6 +281,9 @@ def reach_lookalike(k: int, via: int) -> int:
 
 # ------------------------------------------- two channels fed from ONE data set (different casts): C03 / C08 / C11
 
+SD_NMIN = 1 if THOROUGH else 2     # quick tier: two rows (one row exercises no chunking); thorough: 1..2
+
+
 def shared_dataset_check(dtS, castA, castB, n, chunk, kind):
     """Channels A and B of one frame read the same data set (dataset_name re-assigned; HDF5 / dict / structured source)
     with different casts: every record has one slot per channel, each slot holds the SOURCE column cast directly to
@@ -330,8 +333,8 @@ def shared_dataset_check(dtS, castA, castB, n, chunk, kind):
 
 def ob_shared_dataset(dtS: int, castA: int, castB: int, n: int, chunk: int, kind: int) -> int:
     """
-    pre: 0 <= dtS < 8 and -1 <= castA < 8 and -1 <= castB < 8 and 1 <= n <= 2 and 1 <= chunk <= 2 and 0 <= kind <= 1
-    pre: (castA + 1) % SHARD_N == SHARD_I % 9
+    pre: 0 <= dtS < 8 and -1 <= castA < 8 and -1 <= castB < 8 and SD_NMIN <= n <= 2 and 1 <= chunk <= 2 and 0 <= kind <= 1
+    pre: ((castA + 1) * 2 + kind) % SHARD_N == SHARD_I % 18
     post: _ == 0
     """
     return shared_dataset_check(dtS, castA, castB, n, chunk, kind)
@@ -339,7 +342,7 @@ def ob_shared_dataset(dtS: int, castA: int, castB: int, n: int, chunk: int, kind
 
 def reach_shared_dataset(dtS: int, castA: int, castB: int, n: int, chunk: int, kind: int) -> int:
     """
-    pre: 0 <= dtS < 8 and -1 <= castA < 8 and -1 <= castB < 8 and 1 <= n <= 2 and 1 <= chunk <= 2 and 0 <= kind <= 1
+    pre: 0 <= dtS < 8 and -1 <= castA < 8 and -1 <= castB < 8 and SD_NMIN <= n <= 2 and 1 <= chunk <= 2 and 0 <= kind <= 1
     post: _ != 0
     """
     return shared_dataset_check(dtS, castA, castB, n, chunk, kind)
